@@ -362,6 +362,9 @@ func c10CheckData(c *Ctx, s *Sys, keys *c10Keys, who int, outs [][]byte, sentTex
 				N(ver), st, rt, N(int(d.flags)), NU(uint64(d.sk)), NU(uint64(d.rk)), NB(d.y), B(d.ctr), NB(ourPub), NB(theirPub), NB(sh), B(payload), B(d.old))
 		}
 		c.Count(fmt.Sprintf("data-checked:v%d", ver))
+		if len(sh.Bytes()) < 192 {
+			c.Count("data-checked:short-shared-secret")
+		}
 		c.Rep.Evaluations++
 	}
 }
@@ -412,6 +415,15 @@ func genC10(c *Ctx) {
 		keys := newC10Keys()
 		if i%4 == 1 {
 			s.SetFragmentSize(1, 100+c.R.Intn(200))
+		}
+		if i%2 == 1 {
+			// the random sources look for exponents whose shared secret with one of the peer's recent exponents has
+			// leading zero bytes (one key pair in 256 otherwise): MPIs of secrets are minimal, not fixed width
+			for who := 1; who <= 2; who++ {
+				peer := s.ps[3-who]
+				s.ps[who].rnd.shortWith = func() [][]byte { return lastExps(peer, 2) }
+			}
+			c.Count("sessions-with-short-secrets")
 		}
 		a := 1 + i%2 // who commits: the one that receives the query
 		o1, o2 := len(s.ps[a].outs), len(s.ps[3-a].outs)
